@@ -254,3 +254,24 @@ def model_sint(m, symint):
     if v >= (1 << (w - 1)):
         v -= 1 << w
     return v
+
+
+def validate_call_witnesses(results, cmp=None):
+    """run every recorded witness on the unmodified code and compare with the symbolic result"""
+    wit = [(r, w) for r in results for w in r["witnesses"]]
+    obs = replay_batch([w["replay"] for _, w in wit])
+    good = 0
+    for (r, w), o in zip(wit, obs):
+        exp = w["expected"]
+        if cmp is not None:
+            ok = cmp(exp, o)
+        elif isinstance(exp, dict) and "exception" in exp:
+            ok = "exception" in o and (exp["exception"] in o.get("mro", []) or exp["exception"] == o["exception"])
+        else:
+            ok = "result" in o and o["result"] == exp
+        if ok:
+            good += 1
+        else:
+            r["inconclusive"].append("witness mismatch (symbolic vs real): expected %s got %s for %s" % (
+                str(exp)[:300], str(o)[:400], str(w["replay"].get("args"))[:300]))
+    return good
